@@ -128,6 +128,9 @@ def concretize(P: dict, variant: int = 0) -> onnx.ModelProto:
     # a graph output may alias an input/initializer directly (valid ONNX); duplicates are kept
     outs = [helper.make_tensor_value_info(nm.ref(r), TensorProto.FLOAT, [None]) for r in main["outs"]]
     inits = [numpy_helper.from_array(CONSTS[t], name=f"g1_init{k}") for k, t in enumerate(main["inits"], start=1)]
+    if variant % 4 == 2 and inits:
+        # the first initializer is also a graph input: callers may override it (IR version >= 4)
+        inputs.append(helper.make_tensor_value_info(inits[0].name, TensorProto.FLOAT, list(inits[0].dims)))
     graph = helper.make_graph(nodes, "main", inputs, outs, initializer=inits)
     funcs = []
     for fi, f in enumerate(P["f"], start=1):
@@ -246,7 +249,12 @@ class Abstractor:
         for j, v in enumerate(inits.values(), start=1):
             self.vref[id(v)] = ["init", gid, j, 0]
             cv = v.const_value
-            self.P["g"][gid - 1]["inits"].append("c:none" if cv is None else _tok_of_array(cv.numpy(), cv.dtype.name))
+            tok = "c:none" if cv is None else _tok_of_array(cv.numpy(), cv.dtype.name)
+            if is_main and v.is_graph_input():
+                # an initializer listed as graph input can be overridden by the caller: it denotes its own
+                # (named) default, not the bare constant
+                tok = f"ovr:{v.name}:{tok}"
+            self.P["g"][gid - 1]["inits"].append(tok)
         for i, n in enumerate(graph, start=1):
             for o, v in enumerate(n.outputs, start=1):
                 self.vref[id(v)] = ["out", gid, i, o]
@@ -327,6 +335,16 @@ def _same_default(attr: ir.Attr, default) -> bool:
 
 def abstract(model: ir.Model) -> dict:
     return Abstractor(model).run()
+
+
+def strip_overridable(P: dict) -> dict:
+    """Abstraction with 'overridable initializer' tokens reduced to their content (for comparing with a generated program)."""
+    import copy
+
+    Q = copy.deepcopy(P)
+    for g in Q["g"]:
+        g["inits"] = [t.split(":", 2)[2] if t.startswith("ovr:") else t for t in g["inits"]]
+    return Q
 
 
 def trim_trailing_none(P: dict) -> dict:
